@@ -290,6 +290,16 @@ def plan(m, sc, op):
         m.fresh += 1
         act = 'x%d' % m.fresh
         ev = pick([None, 'e0', 'e1'], d)
+        if valid and m.trs and d % 4 == 0:
+            # an equal duplicate of a registered transition (Transition.__eq__ is by value)
+            x = dict(pick(m.trs, a))
+
+            def eff_dup():
+                m.trs.append(dict(x))
+            return ('add_transition(duplicate of %r -> %r)' % (x['source'], x['target']),
+                    lambda: sc.add_transition(sm.Transition(x['source'], x['target'],
+                                                            event=x['event'], action=x['action'])),
+                    'ok', eff_dup)
         if valid:
             if not owners:
                 return None
